@@ -61,6 +61,7 @@ def mon_delivery(tr, pid='C01', require_complete=True, skip_uids=()):
         if u is not None:
             by_uid.setdefault(u, []).append(e)
     mp_issued = {'c': [], 's': []}
+    raw_side = scn.raw.side if getattr(scn, 'raw', None) is not None else None
     for uid in scn.started:
         if uid in skip_uids:
             continue
@@ -78,7 +79,9 @@ def mon_delivery(tr, pid='C01', require_complete=True, skip_uids=()):
                 mp_issued[peer].append((b'', m))
             continue
         handled = [e for e in evs if e['ev'] == 'handler' and e['side'] == peer]
-        if len(handled) > 1:
+        if peer == raw_side:
+            pass  # the raw peer has no handler; what it received is judged by the wire monitors
+        elif len(handled) > 1:
             out.append(viol('request_duplicated', pid + ':request_duplicated:' + k, uid=uid, k=k, n=len(handled)))
         elif len(handled) == 0:
             if complete and nonempty(d, m):
@@ -88,6 +91,8 @@ def mon_delivery(tr, pid='C01', require_complete=True, skip_uids=()):
             if (h['data'], h['metadata']) != (d, m) or h.get('k') != k:
                 out.append(viol('request_corrupted', pid + ':request_corrupted:' + k, uid=uid, k=k,
                                 sent=[len(d), len(m)], got=[len(h['data']), len(h['metadata'])], got_kind=h.get('k')))
+        if k == 'rr' and side == raw_side:
+            continue
         if k == 'rr':
             hands = [e for e in evs if e['ev'] == 'hand' and e['dir'] == 'resp']
             results = [e for e in evs if e['ev'] == 'rr_result']
@@ -116,6 +121,9 @@ def mon_delivery(tr, pid='C01', require_complete=True, skip_uids=()):
                 has_sub = sub is not None
                 if not has_sub and not os_:
                     continue
+                if raw_side is not None and any(e['ev'] == 'hand' and e['dir'] == dirn and e['side'] != raw_side
+                                                for e in evs) and not has_sub:
+                    continue  # consumer is the raw peer
                 interrupted = any(e['ev'] in ('sub_cancel', 'on_error') and e['dir'] == dirn for e in evs) or \
                     any(e['ev'] == 'hand_end' and e.get('how') == 'error' for e in evs) or \
                     any(e['ev'] in ('pub_cancel', 'src_on_cancel') and e['dir'] == dirn for e in evs)
@@ -914,3 +922,152 @@ def _ending(tr, uid):
                                                'rr_result', 'hand_end', 'pub_cancel', 'src_on_cancel', 'rr_cancelled'):
             kinds.append('%s@%s' % (e['ev'], e['side']))
     return kinds[:12]
+
+
+# ------------------------------------------------------------------------------------------------ C07
+
+def mon_terminal_once(tr, pid='C07', require_done=False):
+    """Every subscriber the library drives: on_subscribe first, then elements, then at most one terminal signal and
+    nothing after it. Every request-response awaitable: exactly one outcome, no second resolution attempted."""
+    out = []
+    per = {}
+    for e in tr.world.log:
+        if e['ev'] in ('on_subscribe', 'on_next', 'on_complete', 'on_error'):
+            per.setdefault((e['side'], e['uid'], e['dir']), []).append(e)
+    for (side, uid, dirn), evs in per.items():
+        k = tr.scn.st[uid]['spec']['k']
+        facts = dict(side=side, uid=uid, dir=dirn, k=k, signals=[(x['ev'] + ('!' if x.get('complete') else '')) for x in evs][:12])
+        if evs[0]['ev'] != 'on_subscribe':
+            out.append(viol('signal_before_on_subscribe', '%s:before_on_subscribe:%s' % (pid, k), **facts))
+        if sum(1 for x in evs if x['ev'] == 'on_subscribe') > 1:
+            out.append(viol('on_subscribe_twice', '%s:on_subscribe_twice:%s' % (pid, k), **facts))
+        term = None
+        for i, x in enumerate(evs):
+            is_term = x['ev'] in ('on_complete', 'on_error') or (x['ev'] == 'on_next' and x.get('complete'))
+            if term is not None and x['ev'] != 'on_subscribe':
+                out.append(viol('signal_after_terminal', '%s:after_terminal:%s:%s_after_%s' % (pid, k, x['ev'], term),
+                                first=term, later=x['ev'], **facts))
+                break
+            if is_term:
+                term = x['ev'] + ('(complete)' if x['ev'] == 'on_next' else '')
+    outcomes = {}
+    for e in tr.world.log:
+        if e['ev'] in ('rr_result', 'rr_error', 'rr_cancelled'):
+            outcomes.setdefault(e['uid'], []).append(e['ev'])
+    for uid, o in outcomes.items():
+        if len(o) > 1:
+            out.append(viol('awaitable_resolved_twice', '%s:awaitable_twice' % pid, uid=uid, outcomes=o))
+    for err in tr.loop_errors:
+        if err.get('type') == 'InvalidStateError' or 'InvalidStateError' in (err.get('exception') or ''):
+            out.append(viol('second_resolution_attempted', '%s:invalid_state:loop' % pid, **err))
+    for side in tr.scn.sock:
+        for e in tr.world.wire.get(side, []):
+            f = e['f']
+            if f['type'] == 'ERROR' and b'invalid state' in bytes(f.get('data') or b'').lower():
+                out.append(viol('second_resolution_attempted', '%s:invalid_state:wire' % pid, side=side, sid=f['sid']))
+    if require_done:
+        for uid in tr.scn.started:
+            st = tr.scn.st[uid]
+            if st['spec']['k'] == 'rr' and st.get('fut') is not None and not st.get('issue_raised'):
+                if uid not in outcomes:
+                    out.append(viol('awaitable_left_pending', '%s:awaitable_pending' % pid, uid=uid))
+    return out
+
+
+# ------------------------------------------------------------------------------------------------ C11
+
+def mon_connection_loss(tr, pid='C11', affected=('c', 's'), settled_mark='settled'):
+    """After the connection was lost or closed: every request pending at that moment failed with an error, responder-side
+    producers cancelled, on_close exactly once per affected endpoint, nothing sent after the settle point, tasks done."""
+    out = []
+    log = tr.world.log
+    fault = next((e for e in log if (e['side'] == 'net' and e['ev'] == 'cut') or e['ev'] == 'close_call'), None)
+    if fault is None:
+        return out
+    fseq = fault['seq']
+    fkind = 'cut:' + fault.get('mode', '') if fault['ev'] == 'cut' else 'close'
+    scn = tr.scn
+    real = set(scn.sock)
+    affected = [s for s in affected if s in real]
+    mark = next((e['seq'] for e in log if e['ev'] == 'mark' and e.get('name') == settled_mark), None)
+    for uid in scn.started:
+        st = scn.st[uid]
+        spec = st['spec']
+        k = spec['k']
+        if st.get('issue_raised'):
+            continue
+        issue = next((e for e in log if e['ev'] == 'issue' and e.get('uid') == uid), None)
+        if issue is None or issue['seq'] > fseq:
+            continue
+        evs = [e for e in log if e.get('uid') == uid]
+        req_side = spec['side']
+        resp_side = OTHER[req_side]
+        facts = dict(uid=uid, k=k, fault=fkind)
+        if req_side in affected:
+            if k == 'rr':
+                outcome = [e for e in evs if e['ev'] in ('rr_result', 'rr_error', 'rr_cancelled')]
+                cancelled_by_app = any(e['ev'] == 'rr_cancel_call' for e in evs)
+                if not outcome:
+                    out.append(viol('request_left_hanging', '%s:hanging:rr' % pid, **facts))
+                elif outcome[0]['seq'] > fseq and outcome[0]['ev'] == 'rr_result':
+                    # a response can still be decoded from bytes that arrived before the cut; that is fine
+                    pass
+            elif k in ('st', 'ch'):
+                sub_evs = [e for e in evs if e['side'] == req_side and e.get('dir') == 'resp']
+                term_before = any((e['ev'] in ('on_complete', 'on_error') or (e['ev'] == 'on_next' and e.get('complete'))
+                                   or e['ev'] == 'sub_cancel') and e['seq'] < fseq for e in sub_evs)
+                if not term_before and any(e['ev'] == 'on_subscribe' for e in sub_evs):
+                    term_after = [e for e in sub_evs if e['seq'] > fseq and (e['ev'] in ('on_complete', 'on_error') or
+                                                                             (e['ev'] == 'on_next' and e.get('complete')))]
+                    cancelled_later = any(e['ev'] == 'sub_cancel' and e['seq'] > fseq for e in sub_evs)
+                    if not term_after and not cancelled_later:
+                        out.append(viol('subscriber_left_hanging', '%s:hanging:%s' % (pid, k), **facts))
+                    elif len(term_after) > 1:
+                        out.append(viol('subscriber_failed_twice', '%s:failed_twice:%s' % (pid, k), **facts))
+        if resp_side in affected and k in ('rr', 'st', 'ch'):
+            handled = next((e for e in evs if e['ev'] == 'handler' and e['side'] == resp_side), None)
+            if handled is None or handled['seq'] > fseq:
+                continue
+            if k == 'rr':
+                resolved = next((e for e in evs if e['ev'] in ('hand', 'hfut_fail') and e['side'] == resp_side), None)
+                done = next((e for e in evs if e['ev'] == 'hfut_done'), None)
+                mode = spec.get('resp', {}).get('mode', 'now')
+                if mode != 'raise' and (resolved is None or resolved['seq'] > fseq) and st.get('hfut') is not None:
+                    if done is None or not done['cancelled']:
+                        if resolved is None:
+                            out.append(viol('handler_future_not_cancelled', '%s:not_cancelled:future' % pid, **facts))
+            else:
+                src = spec.get('src')
+                if src is None or spec.get('handler_raises'):
+                    continue
+                kind = src.get('kind', 'manual')
+                pe = [e for e in evs if e['side'] == resp_side and e.get('dir') == 'resp']
+                finished = any(e['ev'] in ('hand_end', 'src_on_complete', 'gen_exhausted', 'pub_cancel', 'src_on_cancel')
+                               and e['seq'] < fseq for e in pe) or \
+                    any(e['ev'] == 'hand' and e.get('complete') and e['seq'] < fseq for e in pe)
+                if finished:
+                    continue
+                if kind == 'manual':
+                    if any(e['ev'] == 'pub_subscribed' and e['seq'] < fseq for e in pe) and \
+                            not any(e['ev'] == 'pub_cancel' and e['seq'] > fseq for e in pe) and \
+                            not any(e['ev'] in ('hand_end',) and e['seq'] > fseq for e in pe):
+                        out.append(viol('publisher_not_cancelled', '%s:not_cancelled:manual' % pid, **facts))
+                elif kind in ('gen', 'agen'):
+                    if not any(e['ev'] == 'src_on_cancel' and e['seq'] > fseq for e in pe) and \
+                            not any(e['ev'] in ('src_on_complete',) and e['seq'] > fseq for e in pe):
+                        out.append(viol('publisher_not_cancelled', '%s:not_cancelled:%s' % (pid, kind), **facts))
+    for side in affected:
+        closes = [e for e in log if e['ev'] == 'on_close' and e['side'] == side]
+        if len(closes) != 1:
+            out.append(viol('on_close_count', '%s:on_close:%s' % (pid, 'missing' if not closes else 'repeated'),
+                            side=side, n=len(closes), fault=fkind))
+        if mark is not None and mark > fseq:
+            late = [e for e in tr.world.wire.get(side, []) if e['seq'] > mark]
+            if late:
+                out.append(viol('frame_sent_after_connection_end', '%s:send_after_end:%s' % (pid, late[0]['f']['type']),
+                                side=side, n=len(late), types=sorted(set(x['f']['type'] for x in late)), fault=fkind))
+        fin = tr.final.get(side, {})
+        for key in ('sender_done', 'receiver_done', 'keepalive_done'):
+            if key in fin and not fin[key]:
+                out.append(viol('task_still_running', '%s:task_running:%s' % (pid, key), side=side, fault=fkind))
+    return out
